@@ -10,6 +10,7 @@
 #include <vector>
 
 #include "C13_addressable_impl.hpp"
+#include "C13_addressable_types_impl.hpp"
 
 namespace {
 
@@ -32,14 +33,17 @@ std::string show(const V& v) {
     return os.str();
 }
 
-void addr_history(pbt::Source& src, unsigned A, unsigned ck) {
-    const bool table = ck == 2;
+//! ext (target addressable_types): ck 3..5 are comparators owning state, five more operations are drawn (aliasing calls,
+//! other iterator types, more copy/move/swap round trips); the existing target calls with ext = false and keeps its
+//! byte -> history mapping
+void addr_history(pbt::Source& src, unsigned A, unsigned ck, bool ext = false) {
+    const bool table = ck >= 2;
     const size_t U = (size_t)src.range(1, 20); // key universe 0..U-1
     std::vector<int> prio(U, 0);
     if (table)
         for (size_t i = 0; i < U; ++i) prio[i] = (int)src.range(0, 6);
     auto cmp = [&](Key a, Key b) { return ck == 0 ? a < b : ck == 1 ? a > b : prio[a] < prio[b]; };
-    std::unique_ptr<IAddr> hp(make_addr(A, ck, &prio));
+    std::unique_ptr<IAddr> hp(ext ? (A <= 4 ? c13::make_addr_x_lo(A, ck, &prio) : c13::make_addr_x_hi(A, ck, &prio)) : make_addr(A, ck, &prio));
     IAddr& h = *hp;
     std::vector<char> present(U, 0);
     size_t msize = 0;
@@ -110,7 +114,8 @@ void addr_history(pbt::Source& src, unsigned A, unsigned ck) {
     check("construction");
     while (src.more() && nops < 200) {
         ++nops;
-        unsigned op = (unsigned)src.weighted({10, 4, 3, 3, 8, 1, 2, 2, 2, 3, 1, 2});
+        unsigned op = ext ? (unsigned)src.weighted({10, 4, 3, 3, 8, 1, 2, 2, 2, 3, 1, 2, 4, 4, 2, 3, 3})
+                          : (unsigned)src.weighted({10, 4, 3, 3, 8, 1, 2, 2, 2, 3, 1, 2});
         switch (op) {
         case 0: {
             bool ok;
@@ -169,6 +174,7 @@ void addr_history(pbt::Source& src, unsigned A, unsigned ck) {
                     pbt::label(p < prio[k] ? "update_lowered" : "update_raised");
                 }
                 prio[k] = p;
+                h.set_prio(k, p);
             }
             PBT_LOG("update(" << k << ")" << (present[k] ? "" : " [absent: push]") << "\n");
             if (!present[k]) pbt::label("update_absent");
@@ -220,6 +226,7 @@ void addr_history(pbt::Source& src, unsigned A, unsigned ck) {
                     PBT_LOG("prio[" << k << "] = " << p << "\n");
                     if (prio[k] != p && present[k]) pbt::label("update_all_changed");
                     prio[k] = p;
+                    h.set_prio((Key)k, p);
                 }
             }
             PBT_LOG("update_all()\n");
@@ -232,6 +239,62 @@ void addr_history(pbt::Source& src, unsigned A, unsigned ck) {
             PBT_LOG("reserve(" << n << ")\n");
             h.reserve(n);
             pbt::label("reserve");
+            break;
+        }
+        case 12: {
+            // ext: remove() with the key read through the reference top() returns
+            if (!msize) continue;
+            unsigned how = (unsigned)src.range(0, 1);
+            Key t = h.top();
+            PBT_CHECK(t < U && present[t] && is_min(t), "C13/addr-top-min", "before remove(top()): top() = " << t << " is not a minimal stored key; model " << show(members()));
+            PBT_LOG((how ? "const key_type& r = top(); remove(r)" : "remove(top())") << " [top " << t << "]\n");
+            h.remove_top_alias(how);
+            present[t] = 0, --msize;
+            pbt::label("alias_remove_top");
+            break;
+        }
+        case 13: {
+            // ext: update(top()) after changing the top key's priority
+            if (!msize) continue;
+            Key t = h.top();
+            PBT_CHECK(t < U && present[t] && is_min(t), "C13/addr-top-min", "before update(top()): top() = " << t << " is not a minimal stored key; model " << show(members()));
+            if (table) {
+                int p = (int)src.range(0, 6);
+                PBT_LOG("prio[" << t << "] " << prio[t] << " -> " << p << "; ");
+                if (p != prio[t] && msize >= 2) nt = true, pbt::label("alias_update_top_changed");
+                prio[t] = p;
+                h.set_prio(t, p);
+            }
+            PBT_LOG("update(top()) [top " << t << "]\n");
+            h.update_top_alias();
+            pbt::label("alias_update_top");
+            break;
+        }
+        case 14: {
+            if (!msize) continue;
+            PBT_LOG("push(extract_top()) [top " << h.top() << "]\n");
+            h.push_extracted();
+            pbt::label("push_extracted");
+            break;
+        }
+        case 15: {
+            static const char* const BL[c13::N_ABUILD] = {"build_deque_iter", "build_list_iter", "build_reverse_iter", "build_reused_vectors"};
+            unsigned how = (unsigned)src.index(c13::N_ABUILD);
+            std::vector<Key> v = gen_keys();
+            PBT_LOG(BL[how] << " " << show(v) << (msize ? " on non-empty" : "") << "\n");
+            if (msize) pbt::label("build_nonempty"), nt = true;
+            h.build_ext(how, v);
+            set_model(v);
+            pbt::label(BL[how]);
+            break;
+        }
+        case 16: {
+            static const char* const LL[c13::N_ALIFE] = {"life_independent_copy", "life_swap", "life_reuse_after_move", "life_move_moveassign", "life_copy_of_copy"};
+            unsigned how = (unsigned)src.index(c13::N_ALIFE);
+            Key extra = (Key)src.index(U);
+            PBT_LOG(LL[how] << " extra " << extra << "\n");
+            h.copy_move(4 + how, extra);
+            pbt::label(LL[how]);
             break;
         }
         default: {
@@ -274,4 +337,25 @@ PBT_PROPERTY(addressable) {
     pbt::label(AL[arity]);
     pbt::label(CL[ck]);
     addr_history(src, arity, ck);
+}
+
+// comparator objects owning state (shared_ptr table / std::function / owned vector), aliasing calls (remove and update
+// with a key read through top()'s reference), build_heap from deque / list / reverse iterators and reused vectors,
+// more copy / move / swap round trips, a moved-from heap reused after clear()
+PBT_PROPERTY(addressable_types) {
+    unsigned arity = 1 + (unsigned)src.range(0, 7);
+    // less / pointer table (trivially copyable, as in target addressable) / the state-owning kind compiled for this arity
+    unsigned csel = (unsigned)src.weighted({1, 1, 4});
+    unsigned ck = csel == 0 ? 0u : csel == 1 ? 2u : c13::addr_stateful_kind(arity);
+    static const char* const AL[] = {"", "arity=1", "arity=2", "arity=3", "arity=4", "arity=5", "arity=6", "arity=7", "arity=8"};
+    static const char* const CL[] = {"cmp=less", "", "cmp=table", "cmp=shared_ptr_table", "cmp=std_function", "cmp=owned_vector_table"};
+    pbt::label(AL[arity]);
+    pbt::label(CL[ck]);
+    try {
+        addr_history(src, arity, ck, true);
+    } catch (const pbt::Failure&) {
+        throw;
+    } catch (const std::exception& e) {
+        pbt::fail("C13/exception", std::string("the heap operation threw ") + e.what() + " (std::bad_function_call = an empty, i.e. moved-from, std::function comparator was called)");
+    }
 }
